@@ -41,6 +41,7 @@ def dispatch (op : String) (args : List String) : Out :=
   | "unesc" => runP opUnesc args
   | "cast" => runP opCast args
   | "xenc" => runP opXenc args
+  | "xenct" => runP opXenct args
   | "xrt" => runP opXrt args
   | "xtok" => runP opXtok args
   | "xseq" => runP opXseq args
